@@ -127,6 +127,8 @@ def gen_config(rng, fmt, subset=None):
             s = "".join(rng.choice(pool) for _ in range(rng.randint(1, 12))).strip()
             return s or "x"
         pool = u"abc XYZ012\"\\\n\t#;=é€ü中\U0001f600{}[]:,"
+        if c < 0.2:
+            pool += u"\ud83d"        # arbitrary unicode includes an unpaired surrogate (an emoji cut in half by a length limit)
         return "".join(rng.choice(pool) for _ in range(rng.randint(0, 12)))
     digits = lambda n: "".join(rng.choice("0123456789") for _ in range(n))
     vals = {
@@ -292,6 +294,48 @@ def path_roundtrips(run, rng, base, n):
         shutil.rmtree(d, ignore_errors=True)
 
 
+def one_manager_history(run, rng, base, n):
+    """One ConfigManager object used for a whole history of saves and loads on the same explicit path (with and without extension),
+    the format changing between saves: every load returns what the last save wrote."""
+    from yowsup.config.manager import ConfigManager
+    for i in range(n):
+        d = tempfile.mkdtemp(prefix="hist_", dir=base)
+        ext = ["", ".json", ".yo", ".cfg"][i % 4]
+        dest = os.path.join(d, "account" + ext)
+        mgr = ConfigManager()
+        trail = []
+        old = os.environ.get("XDG_CONFIG_HOME")
+        os.environ["XDG_CONFIG_HOME"] = d
+        try:
+            for step in range(4):
+                fmt = rng.choice(["json", "keyval"])
+                if ext == ".json":
+                    fmt = "json"
+                elif ext == ".yo":
+                    fmt = "keyval"
+                cfg = gen_config(rng, fmt)
+                want = cfg_key(cfg)
+                trail.append(fmt)
+                run.case(("one-manager", ext, i, step, fmt))
+                try:
+                    mgr.save(PROFILE, cfg, ConfigManager.TYPE_JSON if fmt == "json" else ConfigManager.TYPE_KEYVAL, dest=dest)
+                    got = cfg_key(mgr.load(dest))
+                    again = cfg_key(mgr.load(dest))
+                except Exception as e:
+                    run.violation("history:exception:%s" % type(e).__name__, "one manager, path %r, saves %s: %r" % ("account" + ext, trail, e), {"ext": ext, "trail": trail})
+                    break
+                if got != want or again != want:
+                    run.violation("history:roundtrip", "one manager, path %r, after saves %s the load does not return the last saved configuration" % ("account" + ext, trail),
+                                  {"ext": ext, "trail": trail})
+                    break
+        finally:
+            if old is None:
+                os.environ.pop("XDG_CONFIG_HOME", None)
+            else:
+                os.environ["XDG_CONFIG_HOME"] = old
+            shutil.rmtree(d, ignore_errors=True)
+
+
 def run():
     r = core.Run("C19", "model_checking")
     thorough = r.tier == "thorough"
@@ -331,6 +375,7 @@ def run():
             replay_path(r, fs, g, p, rng, work)
             r.cov["traces_validated_against_impl"] += 1
         path_roundtrips(r, rng, work, 400 if thorough else 80)
+        one_manager_history(r, rng, work, 200 if thorough else 40)
     finally:
         shutil.rmtree(work, ignore_errors=True)
         if old_xdg is None:
